@@ -229,6 +229,32 @@ def c18(rep, tier):
         glob = [q for q, g in facts.globals.items() if g['cty'].replace('const ', '') == rec]
         ok7 = bool(holders) and all(h == entry and not st for h, st in holders) and not glob
         P7.check(ok7, rec, 'created as an automatic local of %s only' % entry, 'state object held in %s %s' % (holders, glob), entry)
+    # arguments the caller keeps (containers passed by non-const reference) are not consumed: a second call with the same
+    # objects sees what the first call saw
+    P8 = rep.rule('C18.P8', 'functions of the compiler do not move from, clear or assign to containers they receive by reference '
+                            '(the caller may pass the same objects again)', floor=2)
+    for f in facts.functions:
+        if f.get('body') is None or f['tmpl'] == 'pattern' or not f['file'].endswith(('macro.cpp', 'parse.cpp', 'scan.cpp', 'gen.cpp', 'compiler.cpp')):
+            continue
+        refparams = [p for p in f['params'] if '&' in (p.get('cty') or '') and not (p.get('cty') or '').startswith('const ') and
+                     ('std::vector<' in p['cty'] or 'std::map<' in p['cty']) and 'Theo::MacroDefinition' in p['cty']]
+        for p in refparams:
+            aliases = {p['d']}
+            for st in walk_stmts(f['body']):
+                if st['k'] == 'rangefor' and strip_casts(st['range']).get('d') in aliases and st['var'].get('is_ref') and not (st['var'].get('cty') or '').startswith('const '):
+                    aliases.add(st['var']['d'])
+            consumed = None
+            for e in walk_all_exprs(f['body']):
+                if e.get('k') == 'call' and (e.get('callee') or '').split('<')[0] in ('std::move', 'std::exchange', 'std::swap') and \
+                        any(x.get('k') == 'ref' and x.get('d') in aliases for a in e['args'] for x in walk_expr(a)):
+                    consumed = e
+                if e.get('k') == 'call' and e.get('obj') is not None and strip_casts(e['obj']).get('d') in aliases and \
+                        (e.get('callee') or '').split('::')[-1] in ('clear', 'erase', 'pop_back', 'swap', 'operator=', 'resize', 'assign'):
+                    consumed = e
+            inst = '%s: parameter %s' % (f['q'].split('::')[-1], p['name'])
+            P8.check(consumed is None, inst, 'only read', 'the caller\'s %s is modified (%s): a second call with the same objects behaves differently (e.g. apply_macros '
+                     'twice with the definitions extracted once)' % (p['name'], show(consumed)[:60] if consumed else ''),
+                     '%s:%d' % (os.path.relpath(f['file'], repo), (consumed or {}).get('loc', f['loc'][1:])[0] if consumed else f['loc'][1]))
     rep.extra['static_objects'] = len([g for g in facts.globals.values() if not g['static_local']])
     rep.extra['external_callees'] = len(ext)
     rep.extra['functions_scanned'] = n_fn
